@@ -114,4 +114,15 @@ CHECKS["C13"] = {
          "The v2 engine must refuse.",
  "note": DP_NOTE + " Single-worker processors only (the code refuses parallel nodes).",
  "technique": "TLA+ model checking (TLC) of the swap mechanism + TLC trace validation with the request enumerated over all script positions"}
+CHECKS["C16"] = {
+ "text": "Real provisioning.Service (Plan, ApplyPlanLive) + real lifecycle services of both engines with records "
+         "flowing; for each of 6 change kinds the plan is applied at every step index of base scripts, with and without "
+         "authorisation, with a destination that answers only on demand, after an interfering apply (stale plan), "
+         "concurrently with another apply, with a failing store operation and a failing restart; provisioning's "
+         "transactions are labelled in the store trace. TLC validates every trace against LiveApplyTrace.tla "
+         "(StaleRefused, AuthRequired, DrainedBeforeMutate, AppliedIsDesired, FailedConsistent, ContinuesFromDurable, "
+         "NoHang) and DataPathTrace.tla (NoEarlyAck, AckPrefix, OpenNotPastUnhandled, HandledBeforeStored, in-place swap "
+         "invariants).",
+ "note": DP_NOTE + " One pipeline per scenario: concurrent applies to different pipelines are not exercised.",
+ "technique": "TLC trace validation of real provisioning + lifecycle traces with the apply enumerated over change kinds and script positions"}
 NOT_APPLICABLE = {}
